@@ -35,6 +35,8 @@ enum Op {
     BondTwoCoins { amount: u128 },
     BondNoFunds,
     BondOtherCw20 { amount: u128 },
+    /// a native coin whose denom string is exactly the configured cw20 token's address
+    BondNativeNamedLikeToken { amount: u128 },
     DirectReceive { amount: u128 },
     Unbond { amount: u128 },
     Claim,
@@ -52,6 +54,7 @@ impl Op {
             Op::BondTwoCoins { .. } => "bond_two_coins",
             Op::BondNoFunds => "bond_no_funds",
             Op::BondOtherCw20 { .. } => "bond_other_cw20",
+            Op::BondNativeNamedLikeToken { .. } => "bond_native_named_like_token",
             Op::DirectReceive { .. } => "direct_receive",
             Op::Unbond { .. } => "unbond",
             Op::Claim => "claim",
@@ -287,7 +290,13 @@ impl Stake {
             1 => (user, Op::BondWrongDenom { amount: 1 + rng.below(100) as u128 }),
             2 => (user, Op::BondTwoCoins { amount: 1 + rng.below(100) as u128 }),
             3 => (user, Op::BondNoFunds),
-            4 => (user, Op::BondOtherCw20 { amount: 1 + rng.below(100) as u128 }),
+            4 => {
+                if matches!(w.tok, Tok::Cw20(_)) && rng.chance(1, 2) {
+                    (user, Op::BondNativeNamedLikeToken { amount: 1 + rng.below(100) as u128 })
+                } else {
+                    (user, Op::BondOtherCw20 { amount: 1 + rng.below(100) as u128 })
+                }
+            }
             5 => (user, Op::DirectReceive { amount: 1 + rng.below(1000) as u128 }),
             6 => {
                 let a = match rng.below(8) {
@@ -359,6 +368,14 @@ impl Stake {
                     &cw20::Cw20ExecuteMsg::Send { contract: st.to_string(), amount: Uint128::new(*amount), msg: to_json_binary(&ReceiveMsg::Bond {}).unwrap() },
                     &[],
                 )
+            }
+            Op::BondNativeNamedLikeToken { amount } => {
+                let d = match &w.tok {
+                    Tok::Cw20(a) => a.to_string(),
+                    Tok::Native => OTHER_DENOM.to_string(),
+                };
+                w.c.fund(sender, *amount, &d);
+                w.c.exec(sender, &st, &ExecuteMsg::Bond {}, &[coin(*amount, d)])
             }
             Op::DirectReceive { amount } => w.c.exec(
                 sender,
@@ -481,7 +498,7 @@ impl Stake {
                 expected_user_delta.insert(sender.to_string(), -(*amount as i128));
                 expected_holdings += *amount as i128;
             }
-            (Op::BondWrongDenom { .. } | Op::BondTwoCoins { .. } | Op::BondNoFunds | Op::BondOtherCw20 { .. } | Op::DirectReceive { .. }, _) => {
+            (Op::BondWrongDenom { .. } | Op::BondTwoCoins { .. } | Op::BondNoFunds | Op::BondOtherCw20 { .. } | Op::BondNativeNamedLikeToken { .. } | Op::DirectReceive { .. }, _) => {
                 h.out.count("foreign_token_attempts");
                 if prop == "C10" && !h.check(!ok, &format!("C10/bond/{kind}/foreign-or-malformed-payment-accepted"), || format!("{op:?} by {sender} succeeded")) {
                     return false;
